@@ -538,6 +538,7 @@ impl<'a> W<'a> {
                 self.unify(&bt, &con0("Bool"))?;
                 con0("Bool")
             }
+            Tm::Tuple(xs) if xs.len() == 1 => self.infer(&xs[0], env)?,
             Tm::Tuple(xs) => {
                 let mut fs = vec![];
                 for (i, x) in xs.iter().enumerate() {
